@@ -1,0 +1,11 @@
+//go:build verif
+
+package salsa
+
+// VerifC09GenericXORKeyStream exposes the portable XORKeyStream implementation
+// (genericXORKeyStream in salsa20_ref.go) so that it can be compared with the
+// assembly implementation and with a reference model on amd64. Verification hook:
+// compiled only with the "verif" build tag.
+func VerifC09GenericXORKeyStream(out, in []byte, counter *[16]byte, key *[32]byte) {
+	genericXORKeyStream(out, in, counter, key)
+}
